@@ -26,7 +26,7 @@ impl BracketAtom {
     fn matches_multi_character(&self) -> bool {
         match self {
             BracketAtom::CollatingSymbol(value) | BracketAtom::EquivalenceClass(value) => {
-                value.len() > 1
+                value.chars().nth(1).is_some()
             }
             _ => false,
         }
@@ -390,6 +390,20 @@ mod tests {
         let ast = Ast { atoms };
         let regex = ast.to_regex(&Config::default()).unwrap();
         assert_eq!(regex, r"(?:[a]|a\|b)");
+    }
+
+    #[test]
+    fn non_ascii_single_character_collating_symbol_in_complement() {
+        let bracket = Bracket {
+            complement: true,
+            items: vec![BracketItem::Atom(BracketAtom::CollatingSymbol(
+                "\u{E9}".to_string(),
+            ))],
+        };
+        let atoms = vec![Atom::Bracket(bracket)];
+        let ast = Ast { atoms };
+        let regex = ast.to_regex(&Config::default()).unwrap();
+        assert_eq!(regex, "[^\u{E9}]");
     }
 
     #[test]
